@@ -42,7 +42,13 @@ func TestVerifC12Exhaustive(t *testing.T) {
 	maxCases := vEnvInt("VERIF_C12_EXH_MAX", 1<<30)
 	idx := 0
 	shapes := 0
-	for nn := 1; nn <= 4; nn++ {
+	// the enumeration does not depend on the seed: the additional seeds of the thorough tier (seed + k*1000003)
+	// only re-run the part with <= 2 dirs instead of repeating all 1.4 million rewrites
+	maxDirs := 4
+	if h.Seed >= 1000003 {
+		maxDirs = 2
+	}
+	for nn := 1; nn <= maxDirs; nn++ {
 		universe := 4
 		if nn == 4 {
 			universe = 3
